@@ -246,3 +246,52 @@ fn witness_find_uci_selects_the_move_the_text_denotes() {
     }
     assert_eq!(bad, 0);
 }
+
+/// "the board applies it exactly when it denotes a legal move": near-miss spellings of every legal move — file letters or rank
+/// digits pushed off the board by 8 (`i3i5` for `a2a4`), upper case, a stray extra character, a promotion letter where none
+/// belongs — denote no move and must be rejected with the position unchanged (unless the spelling happens to be another legal move)
+#[test]
+fn witness_find_uci_near_miss_spellings_are_rejected() {
+    let mut bad = 0;
+    let start = "rnbqkbnr/pppppppp/8/8/8/8/PPPPPPPP/RNBQKBNR w KQkq - 0 1";
+    let promo = "4k3/P6P/8/8/8/8/p6p/4K3 w - - 0 1";
+    for fen in FENS.iter().copied().chain([start, promo, "rnbqkbnr/pppp1ppp/8/4p3/4P3/8/PPPP1PPP/RNBQKBNR w KQkq e6 0 2"]) {
+        let mut board = Bitboard::from_fen_string_unchecked(fen);
+        let before = snap(&board);
+        let legal: Vec<String> = board.generate_legal_moves().iter().map(|m| m.to_uci_string()).collect();
+        let mut candidates: Vec<String> = Vec::new();
+        for mv in &legal {
+            let c: Vec<char> = mv.chars().collect();
+            let up = |ch: char, by: u8| char::from(ch as u8 + by);
+            let down = |ch: char, by: u8| char::from(ch as u8 - by);
+            for which in 1..16u32 {           // every non-empty subset of the four coordinate characters
+                for dir in [8i32, -8, 16] {
+                    let mut d = c.clone();
+                    let mut okay = true;
+                    for k in 0..4 { if which & (1 << k) != 0 {
+                        let b = d[k] as i32 + dir;
+                        if !(33..127).contains(&b) { okay = false; break; }
+                        d[k] = if dir > 0 { up(d[k], dir as u8) } else { down(d[k], (-dir) as u8) };
+                    } }
+                    if okay { candidates.push(d.iter().collect()); }
+                }
+            }
+            candidates.push(mv.to_uppercase());
+            candidates.push(format!("{}x", mv));
+            candidates.push(format!("{}{}", &mv[..2], &mv[2..4]).chars().rev().collect());   // reversed text
+            if c.len() == 4 { for p in ['q', 'r', 'b', 'n', 'k', 'p'] { candidates.push(format!("{}{}", mv, p)); } }
+            if c.len() == 5 { candidates.push(mv[..4].to_string()); candidates.push(format!("{}k", &mv[..4])); candidates.push(format!("{}Q", &mv[..4])); }
+        }
+        for uci in candidates {
+            if legal.contains(&uci.trim().to_string()) { continue; }
+            let res = board.make_uci(&uci);
+            let after = snap(&board);
+            if res.is_ok() || after != before {
+                if bad < 4 { println!("FAILING-INPUT: fen={:?} make_uci({:?}) -> ok={}, position afterwards {:?}; the string denotes no legal move of the position", fen, uci, res.is_ok(), after); }
+                bad += 1;
+                board = Bitboard::from_fen_string_unchecked(fen);
+            }
+        }
+    }
+    assert_eq!(bad, 0);
+}
